@@ -21,6 +21,8 @@ def switch_descr(v, bi):
         ch = v.chase(ch[1]["a"])
         neg = True
     if ch[0] == "call":
+        if ir.is_negated_forward(ch[1]["fn"]):
+            neg = not neg
         return ((ir.callee_name(ch[1]["fn"]) or "?").split("::")[-1], neg)
     if ch[0] == "rv" and ch[1]["r"] == "bin":
         return ("%s(%s,%s)" % (ch[1]["op"], panics._named_local(v, ch[1]["a"]), panics._named_local(v, ch[1]["b"])), neg)
